@@ -304,7 +304,7 @@ def _snapshot(mol):
 @condition("C01.modifications",
            anchors=["polyply.src.apply_modifications:apply_mod", "polyply.src.apply_modifications:_patch_protein_termini",
                     "polyply.src.apply_modifications:ApplyModifications.run_molecule"],
-           rejects=(), selector_only=True, must_cover=["default termini", "explicit", "offset", "relabelled"],
+           rejects=(), selector_only=True, must_cover=["default termini", "explicit", "several", "offset", "relabelled"],
            assumes=["residue ids >= 1"],
            outside=["modifications that add atoms", "-mods spec parsing (vermouth parse_residue_spec is used as is)"],
            bounds={"quick": dict(seqs=[["ALA", "GLY", "LYS"], ["LYS", "ALA"], ["GLY"]], starts=[1, 4]),
@@ -318,7 +318,7 @@ def modifications(sx, B):
     n = len(seq)
     start = sx.sel("first_resid", B["starts"])
     keyf = sx.sel("node_keys", ["resid-1", "1-based", "rotated", "strings"])
-    mode = sx.sel("mods", ["default", "explicit"])
+    mode = sx.sel("mods", ["default", "explicit", "several"])
     ff = parse_ff([("ff", PROT_FF)])
     keys = {"resid-1": [start - 1 + i for i in range(n)], "1-based": [i + 1 for i in range(n)],
             "rotated": [(i + 1) % n + 10 for i in range(n)], "strings": ["r%d" % i for i in range(n)]}[keyf]
@@ -337,12 +337,20 @@ def modifications(sx, B):
         mods = []
         targets = [(resids[0], "N-ter"), (resids[-1], "C-ter")]
         sx.cover("default termini")
-    else:
+    elif mode == "explicit":
         which = sx.sel("target", list(range(n)))
         modname = "LYS-neutral" if seq[which] == "LYS" else sx.sel("modname", ["N-ter", "C-ter"])
         mods = [("%s%d" % (seq[which], resids[which]), modname)]
         targets = [(resids[which], modname)]
         sx.cover("explicit")
+    else:
+        # several modifications in one run, in a solver-chosen order
+        cands = [(0, "N-ter"), (n - 1, "C-ter")] + [(i, "LYS-neutral") for i in range(n) if seq[i] == "LYS"]
+        order = sx.sel("mod_order", ["as listed", "reversed", "rotated"])
+        cands = {"as listed": cands, "reversed": cands[::-1], "rotated": cands[1:] + cands[:1]}[order]
+        mods = [("%s%d" % (seq[i], resids[i]), m) for i, m in cands]
+        targets = [(resids[i], m) for i, m in cands]
+        sx.cover("several")
     ApplyModifications(modifications=mods, meta_molecule=meta).run_molecule(meta)
     # expected effect, computed independently from the modification table
     table = {"N-ter": {"BB": {"atype": "Q5", "charge": 1.0}}, "C-ter": {"BB": {"atype": "Q5", "charge": -1.0}},
